@@ -2,6 +2,8 @@ SPECIFICATION TSpec
 CONSTANTS
   MaxSet = 99
   Bases <- BasesNone
+  SendModes <- AllSendModes
+  PlainApis <- AllPlainApis
   Ordered = FALSE
 INVARIANT Done
 CHECK_DEADLOCK FALSE
